@@ -69,6 +69,9 @@ HAND = [
 
 # heavy / ionic / isotopic / stereo / mapped family
 SPECIAL = [
+    # text hygiene: blanks / tabs that RDKit tolerates (everything after the first blank of a SMILES is its name)
+    " CCO>>CC=O", "CCO >>CC=O", "CCO>> CC=O", "CCO>>CC=O ", "CCO\t>>CC=O", "CC(=O)OCC >>CC(=O)O.CCO", "CC(=O)O.CCO>>CC(=O)OCC ",
+    "CC(=O)Cl.NCc1ccccc1 >>CC(=O)NCc1ccccc1", " CC(=O)O.CCO>>CC(=O)OCC.O",
     # a side written with aromatic (lower-case) atoms only
     "C1=CC=CC=C1>>c1ccccc1", "c1ccccc1.[H][H].[H][H].[H][H]>>C1CCCCC1", "c1ccoc1.[H][H].[H][H]>>C1CCOC1", "c1ccccc1>>C1CCCCC1",
     "c1ccncc1.O>>c1ccncc1.O", "C1CCCCC1>>c1ccccc1",
